@@ -115,6 +115,9 @@ func (ev *evaluator) ev(e ast.Expr) *Val {
 			if hasFreeBound(idx.T) {
 				return &Val{T: ev.x.atFun(ev.st, strArr(base.T), strOff(base.T), idx.T), Typ: types.Typ[types.Byte]}
 			}
+			if !hasFreeBound(base.T) {
+				ev.x.addReadInterest(ev.st, strArr(base.T), strOff(base.T), idx.T)
+			}
 			return &Val{T: strAt(base.T, idx.T), Typ: types.Typ[types.Byte]}
 		case *types.Map:
 			_, _, doms, vals := ev.x.mapSorts(bt)
